@@ -15,7 +15,7 @@ import (
 // C16: loss filter. Oracle: chance<=0 forwards all, >=100 none, else dropped count within 6 sigma of n*p;
 // forwarded chunks are an in-order, duplicate-free, unmodified subsequence of the injected ones.
 func runLoss(tier string, seed int64, shard, nshard int, r *res.Result) {
-	r.Rule = "streams of n datagrams (sizes 0..1500, unique ids) injected into a LossFilter in front of a recording sink NIC; chances incl. out-of-range values; oracle: deterministic ends, 6-sigma binomial bound in between for the whole stream and for every k-th-datagram sub-stream (k = 2,3,4,5,8: what one of k interleaved flows sees), forwarded = in-order duplicate-free unmodified subsequence (same chunk object, same addresses, same payload hash); the same for 12 pairs of loss filters in series and for six filters used at the same time from six goroutines (incl. out-of-range chances); distinct = (chance, stream) pairs"
+	r.Rule = "streams of n datagrams (sizes 0..1500, unique ids) injected into a LossFilter in front of a recording sink NIC; chances incl. out-of-range values; oracle: deterministic ends, 6-sigma binomial bound in between for the whole stream and for every k-th-datagram sub-stream (k = 2,3,4,5,8: what one of k interleaved flows sees), forwarded = in-order duplicate-free unmodified subsequence (identified by the chunk tag, which a copy keeps; same addresses, same payload hash, same length); the same for 12 pairs of loss filters in series and for six filters used at the same time from six goroutines (incl. out-of-range chances); distinct = (chance, stream) pairs"
 	r.Assumptions = []string{"math/rand global source cannot be seeded from outside: verdict for 0<chance<100 is statistical (false-alarm probability about 2e-9 per stream or sub-stream, 23 bounds per chance value)"}
 	// every chance value 0..100 plus out-of-range ones: a bias may exist for particular values only
 	// out-of-range values at the edges of what an int holds as well: "100 or more" has no upper end, and a negative chance
@@ -63,7 +63,7 @@ func runLoss(tier string, seed int64, shard, nshard int, r *res.Result) {
 			bad := ""
 			fwd := make([]bool, n)
 			for _, g := range got {
-				for j < len(sent) && sent[j].Ptr != g.Ptr {
+				for j < len(sent) && sent[j].Tag != g.Tag {
 					j++
 				}
 				if j == len(sent) {
@@ -163,7 +163,7 @@ func runLoss(tier string, seed int64, shard, nshard int, r *res.Result) {
 		j := 0
 		bad := ""
 		for _, g := range got {
-			for j < len(sent) && sent[j].Ptr != g.Ptr {
+			for j < len(sent) && sent[j].Tag != g.Tag {
 				j++
 			}
 			if j == len(sent) {
